@@ -81,7 +81,9 @@ def decide(prop, args, P, REG, targets, assumed, results, seed, t0, known):
     for tgt, why in undisch_funcs:
         name = f"{tgt}/reach"
         total += 1
-        violations.append({"obligation": name, "status": "undischarged", "detail": f"function left the verifier's reach: {why}", "model": None, "function": tgt})
+        rr = next(x for x in results if x["target"] == tgt)
+        violations.append({"obligation": name, "status": "undischarged", "detail": f"function left the verifier's reach: {why}", "model": None, "function": tgt,
+                           "inputs": rr.get("reach_inputs"), "replay_meta": rr.get("replay_meta")})
 
     exit_code = 0
     if errors:
